@@ -93,9 +93,8 @@ def printLines (pe : Expr → String) (ls : List Line) : String := "\n".intercal
 /-- **the text of a structured program** -/
 def printScript (pe : Expr → String) (B : List SStmt) : String := printLines pe (Lower.renderB B)
 
-/-- the same text with every line indented by `ind` (blanks: `Text.allSpace ind`) -/
-def printLinesInd (pe : Expr → String) (ind : String) (ls : List Line) : String :=
-  "\n".intercalate (ls.map fun l => ind ++ printLine pe l)
+-- (an indented layout — any blanks in front of every line — is `C01.printIndented` / `C01.printPretty`,
+-- BareProofs/C01Source.lean)
 
 /-! ## the decidable side conditions -/
 
